@@ -241,6 +241,10 @@ def run(ctx, rep):
     for v in r6.violations:
         if v["instance"].startswith("role:"):
             rep.ob("R4", v["instance"], False, v["detail"], v["site"], key="R4:" + v["instance"])
+    # an earlier year's dividend figures come from the aggregate filed under that year itself (shared with C04-R6): a summary that is
+    # handed the figures of whichever year happens to follow changes when a later disposal is appended (seeded change C12-s8)
+    import rules.c04 as c04
+    c04.summary_reads_own_year(R, rep, "R5")
     import rules.c07 as c07
     r2 = Report("tmp")
     c07.year_sites(ctx.F, r2)
